@@ -88,6 +88,14 @@ fn escape_table() -> Vec<(String, Option<String>)> {
     for bad in ["\\q", "\\1", "\\x4", "\\x4g", "\\u004", "\\u00g0", "\\U0000004", "\\c", "\\'"] {
         v.push((bad.to_string(), None));
     }
+    // characters whose low byte / low bits look like a valid escape letter are not escapes
+    for e in "0abtnvfre \"/\\N_LPxuU".chars() {
+        for off in [0x100u32, 0x200, 0x2000, 0x10000] {
+            if let Some(c) = char::from_u32(e as u32 + off) {
+                v.push((format!("\\{c}41414141"), None));
+            }
+        }
+    }
     v
 }
 
@@ -129,7 +137,7 @@ pub fn replay(case: &Value) -> Result<Acc, String> {
 
 pub fn check(tier: Tier) -> i32 {
     let mut rep = Report::new("C04", tier, "model_checking");
-    rep.rule = "abstract values: every target string up to length L over {a, space, LF, tab, ':', '#', ''', '\"', '\\', '-', 'é', '['} plus one-character targets for boundary code points; for each style (plain, single, double) and each of 7 syntactic contexts the presentation model enumerates ALL choice vectors with at most d deviations (per-character literal / \\x / \\u / \\U, tab literal or \\t, where to fold a space or a run of line feeds, continuation indentation, trailing blank padding before a fold, escaped line breaks, a comment line in front that makes the scalar straddle the 16-character input buffer); the real parser (StrInput and BufferedInput) must report Scalar(value == target, style). Plus fixed tables: every named escape, all 256 \\xHH in both cases, boundary \\u/\\U code points, and invalid escapes (surrogates, out of range, unknown, short) which must be errors. Non-trivial: every representable presentation; distinct: distinct rendered texts.".into();
+    rep.rule = "abstract values: every target string up to length L over {a, space, LF, tab, ':', '#', ''', '\"', '\\', '-', 'é', '['} plus one-character targets for boundary code points; for each style (plain, single, double) and each of 8 syntactic contexts the presentation model enumerates ALL choice vectors with at most d deviations (per-character literal / \\x / \\u / \\U, tab literal or \\t, where to fold a space or a run of line feeds, continuation indentation, trailing blank padding before a fold, escaped line breaks, a comment line in front that makes the scalar straddle the 16-character input buffer); the real parser (StrInput and BufferedInput) must report Scalar(value == target, style). Plus fixed tables: every named escape, all 256 \\xHH in both cases, boundary \\u/\\U code points, and invalid escapes (surrogates, out of range, unknown, short) which must be errors. Non-trivial: every representable presentation; distinct: distinct rendered texts.".into();
     rep.assumptions = vec!["targets that are not representable in a style/context (by the ns-plain / nb-single-char productions) are skipped by the model".into(), "an escaped line break is never placed directly before a fold".into()];
     let budget = Budget::new(wall_cap(tier));
     rep.mandatory_scopes = 2;
@@ -150,7 +158,7 @@ pub fn check(tier: Tier) -> i32 {
     let (acc, done) = par_blocks(targets.len() as u64, &budget, |b, acc| {
         let t = &targets[b as usize];
         for style in 0..3u8 {
-            for ctx in 0..7u8 {
+            for ctx in 0..8u8 {
                 let (c, tr) = explore(d, &mut |ch: &mut Ch| eval_presentation(t, style, ctx, ch, acc));
                 acc.count("choice_vectors", c);
                 acc.count("choice_edges", tr);
@@ -161,7 +169,7 @@ pub fn check(tier: Tier) -> i32 {
     let states = acc.counters.get("choice_vectors").copied().unwrap_or(0);
     let trans = acc.counters.get("choice_edges").copied().unwrap_or(0);
     rep.acc.merge(acc);
-    rep.scope(&format!("targets <= {l} ({}) x 3 styles x 7 contexts x <= {d} deviations", targets.len()), n, done == targets.len() as u64);
+    rep.scope(&format!("targets <= {l} ({}) x 3 styles x 8 contexts x <= {d} deviations", targets.len()), n, done == targets.len() as u64);
     let table = escape_table();
     let (acc, done) = par_blocks(table.len() as u64, &budget, |b, acc| eval_escape(&table[b as usize].0, &table[b as usize].1, acc));
     let n = acc.evals;
